@@ -75,6 +75,9 @@ _top_stmt = st.one_of(
         st.lists(st.tuples(st.sampled_from(("attr", "name")), _tgt), max_size=2),
     ),
     st.tuples(st.just("allplus"), st.lists(_names, max_size=2, unique=True)),
+    # a module re-exported under another name, then wildcard-imported through that name:
+    # `from pkg import impl as api` + `from <own>.api import *`  (two statements after concretisation)
+    st.tuples(st.just("modalias-star"), st.integers(0, 11), st.sampled_from(NAMES[:4])),
 )
 _body = st.lists(_top_stmt, max_size=5)
 _pkg_shape = st.tuples(st.integers(0, 5), st.lists(st.sampled_from(REL_MODS), max_size=3, unique=True))
@@ -105,6 +108,14 @@ def _concrete_body(body, own: str, all_paths: list[str]):
             out.append(["class", s[1], _concrete_body(s[2], own, all_paths)])
         elif kind == "all":
             out.append(["all", list(s[1]), [[how, _concrete_target(t, own, all_paths)] for how, t in s[2]]])
+        elif kind == "modalias-star":
+            module = all_paths[s[1] % len(all_paths)]
+            if "." in module:
+                parent, sub = module.rsplit(".", 1)
+                out.append(["from", 0, parent, sub, s[2]])
+            else:
+                out.append(["import", module, s[2]])
+            out.append(["star", 0, own + "." + s[2]])
         else:
             out.append(_listify(s))
     return out
@@ -354,6 +365,13 @@ def analyse(model) -> tuple[bool, set[str]]:
                     classes.add("relative-import")
                 if kind == "star":
                     classes.add("wildcard")
+                    if target not in mods and "." in target and target.rsplit(".", 1)[0] in mods:
+                        holder, last = target.rsplit(".", 1)
+                        for x in mods[holder]:
+                            if (x[0] == "from" and x[1] == 0 and (x[4] or x[3]) == last and x[2] + "." + x[3] in mods) or (
+                                x[0] == "import" and x[2] == last and x[1] in mods
+                            ):
+                                classes.add("wildcard-through-module-alias")
                 if target == own:
                     classes.add("self-import")
                 tmod = target if target in mods else None
